@@ -54,6 +54,8 @@ def generate(seed, tier):
     spec = {"format": fmt, "header": header, "sep": swarm.choice([":", "...", "…"]), "fields": fields, "checks": []}
     if fmt in ("delimited", "fixed"):
         spec["line_delimiter"] = swarm.choice(["lf", "crlf", "any"])
+        if spec["line_delimiter"] == "any":
+            spec["eol"] = swarm.choice(["\n", "\r", "\r\n"])
     if swarm.random() < 0.4:
         spec["checks"].append(["uniq", "IsUnique", swarm.choice([field["name"] for field in fields])])
     table = tabular.draw_table(rng, spec, 8, bad_rate=swarm.choice([0.05, 0.2]))
